@@ -25,6 +25,7 @@ theorem inv_step (hi : Inv w s) (hs : Step s l s') : Inv w s' := by
       have hne : s.calls ≠ [] := by simp [hc]
       exact inv_begin hi c.lo c.hi c.timed false h (by simp [Call.hi]) (by rw [hi.calls_fi hne]; omega) (fun _ => rfl)
         (fun h => by cases h)
+        (fun hwf => by rw [hi.hw]; exact hwf c (hi.calls_sub c (by simp [hc])))
   | wRegLoad i x h hx =>
       unfold doRegLoad
       by_cases hxe : x = .empty
